@@ -6,6 +6,7 @@ import (
 	"encoding/json"
 	"fmt"
 	"io"
+	"time"
 
 	flyt "github.com/mark3labs/flyt"
 
@@ -48,6 +49,19 @@ type zeroBaseNode struct {
 
 func (n *zeroBaseNode) GetMaxRetries() int { return 1 }
 func (n *zeroBaseNode) Post(ctx context.Context, s *flyt.SharedStore, p, e any) (flyt.Action, error) {
+	return flyt.Action(n.post), nil
+}
+
+// oddExecNode's exec always fails with a fixed error.
+type oddExecNode struct {
+	*flyt.BaseNode
+	post  string
+	err   error
+	calls *int
+}
+
+func (n *oddExecNode) Exec(ctx context.Context, p any) (any, error) { *n.calls++; return nil, n.err }
+func (n *oddExecNode) Post(ctx context.Context, s *flyt.SharedStore, p, e any) (flyt.Action, error) {
 	return flyt.Action(n.post), nil
 }
 
@@ -207,6 +221,45 @@ func runActCase(cs *ActCase) (fs []finding) {
 		act, err = flyt.Run(context.Background(), node, flyt.NewSharedStore())
 		if err == nil && act == "" {
 			add("empty-action:post-fails-with-odd-error:"+cs.Build, "post of a %s node returned (%q, %s error); the run came back as a SUCCESS with the empty action (n=%d c=%d)", cs.Shape, cs.Post, cs.Build, cs.N, cs.C)
+		}
+		return
+	case "exec-fails-with-odd-error":
+		// every exec attempt fails with an error that wraps a context error of ANOTHER context (a node-local timeout that
+		// really expired) while the run's own context is alive; no fallback: the run fails — were it to succeed, its action
+		// would still not be empty
+		lctx, lcancel := context.WithTimeout(context.Background(), time.Nanosecond)
+		<-lctx.Done()
+		lcancel()
+		errs := map[string]error{"local-deadline": fmt.Errorf("call timed out: %w", lctx.Err()), "local-deadline-bare": lctx.Err(), "local-cancel": fmt.Errorf("sub-operation: %w", context.Canceled), "io.EOF": io.EOF, "typed-nil": (*scen.NilableErr)(nil), "empty-batch-error": &flyt.BatchError{}}
+		ee := errs[cs.Build]
+		calls := 0
+		switch cs.Shape {
+		case "func":
+			node = flyt.NewNode().WithMaxRetries(cs.N).WithExecFuncAny(func(ctx context.Context, p any) (any, error) { calls++; return nil, ee }).
+				WithPostFuncAny(func(ctx context.Context, s *flyt.SharedStore, p, e any) (flyt.Action, error) { return flyt.Action(cs.Post), nil })
+		default:
+			node = &oddExecNode{flyt.NewBaseNode(flyt.WithMaxRetries(cs.N)), cs.Post, ee, &calls}
+		}
+		var hit int
+		if cs.Routed {
+			var f flyt.Node = func() flyt.Node {
+				fl := flyt.NewFlow(node)
+				fl.Connect(node, flyt.DefaultAction, &probeNode{flyt.NewBaseNode(), &hit})
+				fl.Connect(node, flyt.Action(cs.Post), &probeNode{flyt.NewBaseNode(), &hit})
+				return fl
+			}()
+			if cs.C > 0 {
+				f = flyt.NewFlow(f) // one level further down
+			}
+			_, err := flyt.Run(context.Background(), f, flyt.NewSharedStore())
+			if err == nil && hit == 0 {
+				add("default-connection-not-followed:exec-fails-with-odd-error:"+cs.Build, "every exec attempt of a %s node (budget %d) failed with a %s error while the run's context was alive; the flow run SUCCEEDED without following any connection of that node: its run ended without an error and without a usable action", cs.Shape, cs.N, cs.Build)
+			}
+			return
+		}
+		act, err := flyt.Run(context.Background(), node, flyt.NewSharedStore())
+		if err == nil && act == "" {
+			add("empty-action:exec-fails-with-odd-error:"+cs.Build, "every exec attempt of a %s node (budget %d, %d attempts made) failed with a %s error while the run's context was alive; the run came back as a SUCCESS with the empty action", cs.Shape, cs.N, calls, cs.Build)
 		}
 		return
 	case "run-inside-flow-step":
@@ -560,6 +613,13 @@ func runC18(c *Cfg) {
 							continue
 						}
 						cases = append(cases, &ActCase{Family: "grid-post-failing-with-a-harmless-looking-error", Kind: "post-fails-with-odd-error", Post: post, Routed: routed, N: n, C: n, FailAt: -1, Shape: sh, Build: ek})
+					}
+				}
+			}
+			for _, ek := range []string{"local-deadline", "local-deadline-bare", "local-cancel", "io.EOF", "typed-nil", "empty-batch-error"} {
+				for _, sh := range []string{"func", "struct"} {
+					for n := 1; n <= 3; n++ {
+						cases = append(cases, &ActCase{Family: "grid-exec-failing-with-a-foreign-context-error", Kind: "exec-fails-with-odd-error", Post: post, Routed: routed, N: n, C: n % 2, FailAt: -1, Shape: sh, Build: ek})
 					}
 				}
 			}
